@@ -32,6 +32,7 @@ def run(chk):
     e10.run_U(chk, ("yastn.tensor._merging", "yastn.tensor._contractions", "yastn.tensor._algebra", "yastn.tensor._legs", "yastn.initialize"), floor1=5, floor2=1)
 
 MUTANTS = [
+    ('signatures popped for products only', 'yastn/tensor/_merging.py', '        ss = [tuple(s1.pop(it) for _ in range(no)) for s1 in s]\n        tt = [tuple(t1.pop(it) for _ in range(no)) for t1 in t]', "        tt = [tuple(t1.pop(it) for _ in range(no)) for t1 in t]\n        if op[it - 1] == 'p':\n            ss = [tuple(s1.pop(it) for _ in range(no)) for s1 in s]", 'F5'),
     ("mask test only on blocked legs", "yastn/initialize.py", "        if any(_legs_mask_needed(ulegs[n][pa[n]], leg) for n, leg in enumerate(legs_tn[pa])):", "        if any(_legs_mask_needed(ulegs[n][pa[n]], legs_tn[pa][n]) for n in out_b):", "F4"),
     ("mask test skips the first leg", "yastn/initialize.py", "        if any(_legs_mask_needed(ulegs[n][pa[n]], leg) for n, leg in enumerate(legs_tn[pa])):", "        if any(_legs_mask_needed(ulegs[n][pa[n]], leg) for n, leg in enumerate(legs_tn[pa]) if n > 0):", "F4"),
     ("verdict overwritten per pair", "yastn/tensor/_algebra.py", "        mask_needed_ab, _ = _unpack_trans_test_axes_pair(a, b, sgn=1)\n        mask_needed = mask_needed or mask_needed_ab", "        mask_needed, _ = _unpack_trans_test_axes_pair(a, b, sgn=1)", "F2"),
